@@ -109,6 +109,19 @@ CHECKS = {
             "come from settings.cholesky_jitter(A.dtype) / cholesky_max_tries; (U) upper transposes exactly on "
             "request. NOT decided: that the factor is numerically the Cholesky factor of the perturbed matrix.",
             TRUST + "; cholesky_ex info semantics.", "DESIGN.md section 3, C16"),
+    "C12": (True,
+            "effect analysis of history channels (attribute stores outside __init__, memo-dictionary writes) with "
+            "guard-dominance queries on the CFG; decorator / key table agreement",
+            "Partial, structural, for ALL query sequences: history can reach a later answer only through mutable "
+            "per-object or global state, so every such channel is enumerated (attributes of self written outside "
+            "__init__, _memoize_cache entries, class-level globals) and each write must be write-once (dominated by a "
+            "'not yet set' test with the right polarity), a keyed memo (read back only under equality of the key stored "
+            "with it), a private helper guarded at all its call sites, or aimed at an operator constructed in the same "
+            "function; ignore_args caches only where arguments cannot matter; denotation attributes are never "
+            "re-assigned. Tests build a fresh operator per query, so no history is ever exercised. NOT decided: that a "
+            "cached or transplanted factorization is numerically valid for the (new) matrix.",
+            TRUST + "; per-call autograd ctx objects and the settings classes (C17) are not operator history.",
+            "DESIGN.md section 3, C12"),
 }
 
 NOT_APPLICABLE = {
